@@ -32,7 +32,7 @@ def _parsed(name: str) -> dict:
 
 
 def iso(dt: datetime) -> str:
-    return dt.strftime("%Y-%m-%dT%H:%M:%S.%f")[:-3] + "Z"
+    return dt.strftime("%Y-%m-%dT%H:%M:%S.%f") + "Z"        # microseconds kept (sub-millisecond event times)
 
 
 def parse_iso(s: str) -> datetime:
